@@ -202,6 +202,11 @@ def run(ctx):
                             a1 = db.Convert(qt, u, v, x)
                             a2 = db.Convert(qt, [(u, 1)], [(v, 1)], x)
                             a3 = db.Convert(qt, ((u, 1),), ((v, 1),), x)
+                            # the same amount inside a list / a tuple is the same amount
+                            al, at = db.Convert(qt, u, v, [x, 0.0, x]), db.Convert(qt, u, v, (x,))
+                            if not (isinstance(al, list) and isinstance(at, tuple) and repr(al[0]) == repr(a1) == repr(al[2]) == repr(at[0]) and repr(al[1]) == repr(db.Convert(qt, u, v, 0.0))):
+                                ctx.violation("%s:%s:%s->%s:amount-in-a-list-or-tuple-differs-from-the-plain-amount" % (kind, qt, u, v), {"plain": repr(a1), "list": repr(al), "tuple": repr(at), "x": x, "db": kind}, replay={"kind": kind, "qt": qt, "u": u, "v": v, "x": x})
+                                break
                         except Exception as e:
                             ctx.violation("%s:%s:%s->%s:exponent-1-form-raised" % (kind, qt, u, v), {"error": repr(e)[:200], "x": x, "db": kind}, replay={"kind": kind, "qt": qt, "u": u, "v": v, "x": x})
                             break
